@@ -1,4 +1,71 @@
-/-! Line protocol handler for the `add` domain (stub until the model exists). -/
+import OFCore.AddDivide
+import OFCore.Drv.Per
+/-!
+Line protocol handler for the `add` domain (plain / ADD / DIVIDE requests, C03).
+
+```
+add <kind> <cfg> <defUnit> <period|none> <mode>      -> <int> | <p/q> | ERR
+   kind   i  formula returning `ord(start) mod 9973`  (int variable)
+          f  formula returning `ord(start) mod 1009`  (float variable)
+          c  no formula, default value 7
+          z  neutralised variable (value 0)
+          (an eternal variable's value never depends on the period: 7, or 0 when neutralised)
+   cfg    s  values are stored (default configuration)    n  `variables_to_drop` (not stored)
+   period unit/Y,M,D/size, or `none` for a period argument that is not int / str / Period
+   mode   plain | add | div                 Simulation.calculate / calculate_add / calculate_divide
+          pop:<opts> | frm:<opts>           population(variable, period, options) called directly /
+                                            from inside a formula (same model)
+   opts   -  (options=None) | e (empty list) | tokens joined by `+`:
+          A, sA = ADD   D, sD = DIVIDE   anything else = some other option
+```
+One self-contained case per line. Rationals in lowest terms, `p` when the denominator is 1.
+-/
 namespace OFCore.Drv
-def handleAdd (_args : List String) : String := "BAD"
+
+def showRat' (x : Rat) : String := if x.den = 1 then toString x.num else s!"{x.num}/{x.den}"
+
+/-- the value function the harness's variables implement -/
+def valOf (kind : String) (defUnit : DUnit) (p : Period) : Int :=
+  if kind = "z" then 0
+  else if defUnit = .eternity ∨ kind = "c" then 7
+  else if kind = "f" then ord p.start % 1009
+  else ord p.start % 9973
+
+def parseOpts? (s : String) : Option (Option (List Opt)) :=
+  if s = "-" then some none
+  else if s = "e" then some (some [])
+  else
+    let toks := s.splitOn "+"
+    if toks.any (· = "") then none
+    else some (some (toks.map fun t =>
+      if t = "A" ∨ t = "sA" then Opt.add else if t = "D" ∨ t = "sD" then Opt.divide else Opt.other))
+
+def handleAdd (args : List String) : String :=
+  match args with
+  | [kind, cfg, du, ps, mode] =>
+    if !(["i", "f", "c", "z"].contains kind) ∨ !(["s", "n"].contains cfg) then "BAD" else
+    match DUnit.ofName du with
+    | none => "BAD"
+    | some u =>
+      let parg : Option (Option Period) := if ps = "none" then some none else (parsePeriod? ps).map some
+      match parg with
+      | none => "BAD"
+      | some parg =>
+        let val := valOf kind u
+        let store := cfg = "s"
+        match mode.splitOn ":" with
+        | ["plain"] => match parg with
+          | some p => showE toString (calcPlain val store u p) | none => "BAD"
+        | ["add"] => match parg with
+          | some p => showE toString (calcAdd val store u p) | none => "BAD"
+        | ["div"] => match parg with
+          | some p => showE showRat' (calcDivide val store u p) | none => "BAD"
+        | [m, os] =>
+          if m ≠ "pop" ∧ m ≠ "frm" then "BAD" else
+          match parseOpts? os with
+          | none => "BAD"
+          | some opts => showE showRat' (callWithOptions val store u parg opts)
+        | _ => "BAD"
+  | _ => "BAD"
+
 end OFCore.Drv
